@@ -22,6 +22,7 @@
 package main
 
 import (
+	"bufio"
 	"bytes"
 	"errors"
 	"fmt"
@@ -94,7 +95,7 @@ func readFaultFamily(es []entry, budget time.Duration) mc.Family {
 	}
 	return mc.Family{
 		Name: "read-fault-at-every-offset", Items: len(items), Budget: budget,
-		Rule: fmt.Sprintf("%d corpus inputs x a read fault (sentinel error) at EVERY byte offset k in 0..len (%d offsets) x %d fault styles (full reads up to k then the error alone; one byte at a time; the error in the same call as the last good bytes; the same with 7-byte reads; a transient error reported once, alone or together with data, after which the reader carries on) x 5 error values (a sentinel, io.ErrUnexpectedEOF, an error wrapping io.EOF, io.ErrNoProgress, io.ErrClosedPipe; PFB inputs and transient faults: sentinel only) x {plain, seekable (fonts)}; item = block of %d offsets; non-trivial = the fault was delivered to the library", len(es), total, len(faultStyles), block),
+		Rule: fmt.Sprintf("%d corpus inputs x a read fault (sentinel error) at EVERY byte offset k in 0..len (%d offsets) x %d fault styles (full reads up to k then the error alone; one byte at a time; the error in the same call as the last good bytes; the same with 7-byte reads; a transient error reported once, alone or together with data, after which the reader carries on; for programs and CMaps also through a bufio.Reader, which hands the library an io.ByteReader and forgets an error once reported) x 5 error values (a sentinel, io.ErrUnexpectedEOF, an error wrapping io.EOF, io.ErrNoProgress, io.ErrClosedPipe; PFB inputs and transient faults: sentinel only) x {plain, seekable (fonts)}; item = block of %d offsets; non-trivial = the fault was delivered to the library", len(es), total, len(faultStyles), block),
 		Body: func(c *mc.Ctx, item int) mc.Verdict {
 			e := es[items[item].e]
 			n := min(block, len(e.in.Data)+1-items[item].first)
@@ -132,6 +133,12 @@ func readFaultFamily(es []entry, budget time.Duration) mc.Family {
 				src.FailErr = faultErrors[c.Choose(len(faultErrors))]
 			}
 			var r io.Reader = src
+			if fs.buffered {
+				if e.kind != "ps" && e.kind != "cmap" {
+					return mc.Pass("n/a:buffered-source-only-for-the-interpreter's-scanner", false)
+				}
+				r = bufio.NewReaderSize(src, 16)
+			}
 			if seek {
 				r = env.SeekSource{Source: src}
 			}
@@ -175,6 +182,7 @@ var faultErrors = []error{env.ErrInjected, io.ErrUnexpectedEOF, fmt.Errorf("read
 var faultStyles = []struct {
 	name                            string
 	oneByte, chunk7, withData, once bool
+	buffered                        bool // the source is wrapped in a bufio.Reader (an io.ByteReader that forgets an error once it has reported it)
 }{
 	{name: "full reads, error alone, persistent"},
 	{name: "one byte per read, error alone, persistent", oneByte: true},
@@ -183,6 +191,8 @@ var faultStyles = []struct {
 	{name: "error alone, reported once, then the reader carries on", once: true},
 	{name: "error together with data, reported once, then the reader carries on", withData: true, once: true},
 	{name: "7-byte reads, error together with data, reported once", chunk7: true, withData: true, once: true},
+	{name: "through a bufio.Reader: 7-byte reads, error alone, reported once", chunk7: true, once: true, buffered: true},
+	{name: "through a bufio.Reader: error alone, persistent", buffered: true},
 }
 
 func truncationFamily(es []entry, budget time.Duration) mc.Family {
@@ -338,7 +348,7 @@ func writeFaultFamily(cases []writeCase, budget time.Duration) mc.Family {
 	}
 	return mc.Family{
 		Name: "write-fault-at-every-call-and-offset", Items: len(items), Budget: budget,
-		Rule: fmt.Sprintf("%d writer invocations (4 fonts, one of them with a 600-segment glyph, x {PFA, PFB, binary, no-eexec, WritePDF, default options} and 3 metrics values) x a transient fault at EVERY Write call index (%d calls in total) and a short write + error at EVERY byte offset (%d offsets; persistent, or reported once with later writes succeeding); each must return a non-nil error; non-trivial = every case", len(cases), nCalls, nBytes),
+		Rule: fmt.Sprintf("%d writer invocations (4 fonts, one of them with a 600-segment glyph, x {PFA, PFB, binary, no-eexec, WritePDF, default options} and 3 metrics values) x a transient fault at EVERY Write call index (%d calls in total; reported with 0 bytes written, or with all bytes of the call written) and a short write + error at EVERY byte offset (%d offsets; persistent, or reported once with later writes succeeding); each must return a non-nil error; non-trivial = every case", len(cases), nCalls, nBytes),
 		Body: func(c *mc.Ctx, item int) mc.Verdict {
 			x := items[item]
 			wc := cases[x.c]
@@ -349,6 +359,10 @@ func writeFaultFamily(cases []writeCase, budget time.Duration) mc.Family {
 				j := x.first + c.Choose(min(block, p.calls-x.first))
 				w.FailCall = j
 				desc = fmt.Sprintf("%s: Write call #%d of %d fails (later calls succeed)", wc.name, j, p.calls)
+				if c.Choose(2) == 1 {
+					w.FullCount = true
+					desc = fmt.Sprintf("%s: Write call #%d of %d takes all its bytes and reports an error with them (later calls succeed)", wc.name, j, p.calls)
+				}
 			} else {
 				b := x.first + c.Choose(min(block, p.bytes-x.first))
 				w.Limit = b
